@@ -12,9 +12,28 @@ ENGINES = [
 NOTES = "Model-based verification with explicit TLA+ specifications; see DESIGN.md."
 NOT_APPLICABLE = {}
 MC = "TLC model checking of an explicit TLA+ spec + conformance replay/trace validation against the Rust code"
+TINY = "bounded widths (the same generic source lines run at all widths, monomorphised at W in {2,3,4} bits through verification-only BitArray types); bounded message length; TLC, CommunityModules and the tiny integer types are trusted"
 CHECKS = {
     "C01": {"text": "TLC checks the stack laws (pop-after-push, import/export inverse, state invariant) on Ans.tla in every reachable state for every model slot at widths (W,S) in {(2,4),(2,5),(2,6),(3,6)} (thorough: up to (4,12)); every enumerated state and model is then replayed on the real generic AnsCoder monomorphised at those widths, comparing only what the property states (symbols returned, exported words).",
-            "note": "bounded widths (the same generic source lines run at all widths); Export length bounded by MaxInit/MaxBulk; TLC, tiny integer types trusted", "technique": MC},
-    "C06": {"text": "Exact conformance: every transition of the TLA+ rANS specification (state, bulk, pushed/popped word) is replayed on the real AnsCoder at tiny widths and compared field by field.",
-            "note": "bounded widths; spec is the published streaming rANS algorithm", "technique": MC},
+            "note": TINY, "technique": MC},
+    "C02": {"text": "TLC enumerates every message of up to 3-5 symbols through Range.tla (encoder with all carry situations, sealing, decoder) and checks round trip, exhaustion and the empty message as invariants; each message is replayed through the real RangeEncoder/RangeDecoder (per-symbol and batch forms). Coverage of every carry/seal class is required (vacuity check).",
+            "note": TINY, "technique": MC},
+    "C04": {"text": "TLC checks push-after-pop and from_binary/into_binary identities on Ans.tla for every state and every binary word sequence; every case is replayed on the real AnsCoder (from_binary, decode with every slot model to depth 3, re-encode, into_binary/get_binary, num_valid_bits).",
+            "note": TINY, "technique": MC},
+    "C06": {"text": "Exact conformance: every transition of the TLA+ rANS specification and every message of the range-coder specification (encoder state, sealed words, every intermediate decoder state) is compared field by field with the real coders; TLC additionally proves the implementation-shaped range-coder spec equal to an arbitrary-precision carry-propagating reference.",
+            "note": TINY + "; Ans.tla is the published streaming rANS update; sealing rule from notes/range-coding.md", "technique": MC},
+    "C07": {"text": "For every enumerated message the real encoder's pos() snapshots at every boundary are sought to on a decoder over the sealed words in every order of length <= 2; TLC checks on the spec that a decoder in sync sits exactly at the encoder's state.",
+            "note": TINY + "; range coder with Cursor<Vec> backend so far", "technique": MC},
+    "C08": {"text": "For every spec-enumerated ANS state and range-coder message, every inspection (get_compressed, get_binary, iter_compressed, temporary decoder, clone, size queries) is compared with what finishing would return and an inspected twin is compared with an untouched twin.",
+            "note": TINY, "technique": MC},
+    "C09": {"text": "Impossible symbols injected after every prefix of every enumerated range-coder message must be refused with the encoder unchanged and the continuation decodable.",
+            "note": TINY + "; range coder part so far", "technique": MC},
+    "C10": {"text": "TLC checks that decoding is total on Ans.tla from every importable state; every state/model pair is replayed on the real coder under overflow and unsafe-precondition checks, to depth 4.",
+            "note": TINY + "; ANS part so far", "technique": MC},
+    "C11": {"text": "TLC checks that Sealed(e) followed by every suffix decodes to the message, for every message; the same suffixes are replayed on the real decoder, plus encoders started on non-empty sinks.",
+            "note": TINY, "technique": MC},
+    "C12": {"text": "TLC checks the per-step potential lemmas (ANS: value grows by at most 2^P/p (1+2^-(S-W-P)); range: range shrinks by at most p/2^P (1-2^-(S-W-P))) and word bounds in every state; the harness evaluates the same inequalities and the telescoped bit bound in exact integer arithmetic on the real coders.",
+            "note": TINY, "technique": MC},
+    "C18": {"text": "Size, emptiness and exhaustion queries are compared with the length of the actual export in every spec-enumerated state (ANS) and after every prefix of every message (range coder).",
+            "note": TINY + "; model diagnostics not yet covered", "technique": MC},
 }
